@@ -64,6 +64,7 @@ def make_bad(r, src):
         t = r.choice(toks)
         long_num = ''.join(str((i * 7 + 3) % 10) for i in range(r.choice([41, 50, 80])))
         ins = r.choice([' 1 2 ', ' ) ', ' ] ', ' => ', ' , , ', ' : ', ' "s" "t" ', ' = = ',
+                        ' 1e1000000000000000000 ', ' 2E-99999999999999999999 ', ' 1.5e+9999999999999999999999 ', ' 0x1F ', ' 1_000 ', ' 7j ', ' .5 ', ' 5. ',
                         ' %s ' % long_num, ' 1 %s ' % long_num, ' %s.5 ' % long_num, ' %s y ' % ('x' * 64), ' "%s" "t" ' % ('s' * 70)])
         return k, base[:t[0]] + ins + base[t[0]:]
     if k == 'illegal_char':
